@@ -85,7 +85,6 @@ kf("K13-C13", "lone marker next to ']'", "C13", r"^C13\|splice-changes-tree\|(sp
 kf("K8m-C03", "block comment with a blank-only line inside math call arguments", "C03", r"^C03\|not-idempotent\|(.*&)?dev=math:[^|&]*:bc_ws_line[|&]", "$fn(k/*c1\n    d\n  \n    e*/: x)$", "a multi-line block comment with a whitespace-only line inside math (call arguments, delimiters, matrix rows), at a width where the group just fits: the first pass breaks the arguments, the second (which sees the blank line emptied by the trailing-blank pass) keeps them on one line", "not-idempotent")
 kf("K14-C01", "parentheses around an array on the left of '='", "C01", r"^C01\|tree\|spine=[^|]*/(assign|destruct)\w*(@\d)?/(paren\w*|pat_paren)(@\d)?/(arr0|pat_sink0)\|", "#{\n  (()) = a\n}", "'(()) = a' / '((..r)) = a': the redundant parentheses around an empty or spread-only array on the left of an assignment are removed, which turns the (meaningless) assignment to a parenthesised array into a destructuring assignment", "tree")
 kf("K13-C06", "lone marker next to ']'", "C06", r"^C06\|moved-across-word\|(.*&)?dev=[^|]*\|at=[^|]*list_nest_empty", "#{\n  [- foo\n    -]/*c1*/}", K13 + " - the census position of every later comment shifts by one word", "moved-across-word")
-kf("K2-C06", "P13 math-row-trailing-comma", "C06", r"^C06\|moved-across-word\|(.*&)?dev=math:\w+>Array\[[^\]]*\]:(lc|lc_sp|lc_lc|nl_lc|off_lc|off_reason)[|&].*\|at=[^|]*m_fn_bs", "$ fn(x,//c1\ny \\ ; z/*c3*/) $", P13 + " - behind a backslash the added comma forms the escape '\\,', which shifts the census position of every later comment", "moved-across-word")
 kf("K14-C03", "parentheses around an array on the left of '='", "C03", r"^C03\|not-idempotent\|spine=[^|]*/(assign|destruct)\w*(@\d)?/(paren\w*|pat_paren)(@\d)?/(arr0|pat_sink0|dict0)\|", "#{\n  ((..r)) = a\n}", "'((..r)) = a': the first pass removes the redundant parentheses and prints the spread-only array with a trailing comma; read as a destructuring pattern by the second pass it is laid out differently", "not-idempotent")
 kf("K14-C04", "parentheses around a dict on the left of '='", "C04", r"^C04\|erroneous-output\|spine=[^|]*/(assign|destruct)\w*(@\d)?/paren\w*(@\d)?/dict0\|", "#{\n  ((:)) = a\n}", "'((:)) = a': the redundant parentheses around an empty dict on the left of an assignment are removed; '(:) = a' is read as a destructuring with an invalid pattern", "erroneous-output")
 kf("K13-C01", "lone marker-like text before ']'", "C01", r"^C01\|tree\|(spine|dev=.*\|at)=\S*/list_nest_empty", "#{\n  [- foo\n    -]\n}", "a lone '-' (or '+', '=') that is plain text because ']' follows it directly, at the start of the last line of a multi-line content block whose last element is a list item: the closing bracket is moved to its own line (the repair of P14) and the token becomes an empty list item", "tree")
@@ -166,6 +165,7 @@ FIXED = [
   fixed("C01", "keep the comma of a 2D math row apart from a backslash before it", "'$mat(x \\ , y; z)$' -> '$mat(x \\, y; z)$' (follow-up of the separator repair; thorough tier)"),
   fixed("C04", "break the line after a line comment that ends an import without items", "'#(import \"m.typ\": // c<newline>())': the comment swallowed the closing parenthesis (follow-up; thorough tier; also C06)"),
   fixed("C13", "keep a blank between a hashed identifier and the underscore of an attachment", "'$#x _ y$' -> '$#x_y$': the subscript became part of the identifier (found by a single-character damage under C13; also C01 C09)"),
+  fixed("C10", "keep the comma added to an unfolded 2D math row apart from a backslash", "'$fn(x, //c<newline>y \\ ; z)$' -> 'y \\, ;': the comma that an unfolded row gets after its last item formed the escape '\\,' behind a backslash (C10 quick tier on the math edge productions; also C06: the escape shifted the census position of later comments, former entry K2-C06)"),
   fixed("C01", "do not break a content block that holds nothing but block comments", "'a#[/*c*/]b' was printed with the comment on its own line: empty content became a blank (also C02 C08)"),
 ]
 
